@@ -11,7 +11,7 @@ ASSUMPTIONS = [
     "strings are Rust Strings, i.e. valid UTF-8; the models work on byte lists and the escape/scan theorems hold for ALL byte lists",
     "timestamp text (RFC3339 millis, and chrono's rendering of each %d{fmt}) is opaque data supplied with the case; chrono is not modelled. "
     "D1 feeds the model the text computed independently in Python and compares whole output lines",
-    "finite f64 fields: serde_json's (ryu) text and Rust's Display text are opaque case data from a fixed pool; the JSON monitor "
+    "finite f64 fields: serde_json's (zmij) text and Rust's Display text are opaque case data from a fixed pool; the JSON monitor "
     "parses the number back and compares it bit-for-bit with the input; NaN/inf must read back as null",
     "serde_json internals other than the string escaping table and the compact map layout are not modelled (tied by D1 only)",
     "pattern scanner: the source regex's \\d is Unicode-aware; the byte-level scanner model covers ASCII digits only. Patterns in which "
@@ -57,6 +57,6 @@ MANIFEST = {
             "whose widths are <= 65535 - the unrestricted totality statement is refuted (finding F-33: %65536m panics in std::fmt) and replayed on the code.",
     "design_ref": "DESIGN.md §8 C20 (C20_json, C20_pattern), §9 F-27",
     "note": "Trusted: Coq kernel, ExtrOcamlBasic extraction + OCaml driver, the D1 harness/generators/monitors, Python's json module (monitor). Modelled not "
-            "verified: chrono, ryu/float Display (opaque texts), the regex crate (scanner tied by D1, ASCII \\d only), UTF-8 validity of the output "
+            "verified: chrono, float formatting (opaque texts), the regex crate (scanner tied by D1, ASCII \\d only), UTF-8 validity of the output "
             "(only: non-ASCII bytes pass through unchanged in order).",
 }
